@@ -35,7 +35,8 @@ struct sqfs_meta_writer_t { sqfs_object_t base; int opaque; };
 
 static struct sqfs_meta_writer_t g_mw;
 static sqfs_xattr_writer_t g_xwr;
-static kv_block_desc_t g_kv[NSETS];
+#include "C03/xattr_kv_nodes.h"
+#define g_kv(i) (*g_kvp[i])
 
 static size_t g_off;		/* bytes buffered in the current block */
 static sqfs_u64 g_blk;		/* start of the current block */
@@ -71,12 +72,15 @@ int sqfs_meta_writer_append(sqfs_meta_writer_t *m, const void *data,
 	/* the call number is concrete: compare the record with its set here */
 	VERIF_ASSERT(g_apps < NSETS &&
 		     ((const sqfs_xattr_id_t *)data)->xattr ==
-		     g_kv[g_apps].start_ref &&
-		     ((const sqfs_xattr_id_t *)data)->count == g_kv[g_apps].count &&
+		     g_kv(g_apps).start_ref &&
+		     ((const sqfs_xattr_id_t *)data)->count == g_kv(g_apps).count &&
 		     ((const sqfs_xattr_id_t *)data)->size ==
-		     g_kv[g_apps].size_bytes, "C03.xattr.idtable.entries");
+		     g_kv(g_apps).size_bytes, "C03.xattr.idtable.entries");
 	g_apps += 1;
-	if (verif_nd_bool("append_fails")) {
+	/* failure only at the first record (one early exit; a possible failure
+	 * at each of the NSETS calls makes symex quadratic) - propagation of
+	 * meta writer errors is C13's subject */
+	if (g_apps == 1 && verif_nd_bool("append_fails")) {
 		g_faults += 1;
 		return SQFS_ERROR_IO;
 	}
@@ -130,14 +134,14 @@ void harness(void)
 
 	j = verif_nd_size("j");
 	for (i = 0; i < NSETS; ++i) {
-		g_kv[i].next = i + 1 < NSETS ? &g_kv[i + 1] : NULL;
-		g_kv[i].start = verif_nd_size("start");
-		g_kv[i].count = verif_nd_u32("count");
-		g_kv[i].start_ref = verif_nd_u64("start_ref");
-		g_kv[i].size_bytes = verif_nd_u32("size_bytes");
+		g_kv(i).next = i + 1 < NSETS ? g_kvp[i + 1] : NULL;
+		g_kv(i).start = verif_nd_size("start");
+		g_kv(i).count = verif_nd_u32("count");
+		g_kv(i).start_ref = verif_nd_u64("start_ref");
+		g_kv(i).size_bytes = verif_nd_u32("size_bytes");
 	}
-	g_xwr.kv_block_first = &g_kv[0];
-	g_xwr.kv_block_last = &g_kv[NSETS - 1];
+	g_xwr.kv_block_first = g_kvp[0];
+	g_xwr.kv_block_last = g_kvp[NSETS - 1];
 	g_xwr.num_blocks = NSETS;
 	g_blk_start[0] = 0;
 	g_nblk = 1;
